@@ -556,6 +556,8 @@ pub fn run(c: &Ctx) {
             vec![w("/b", "data\n"), rm("/b"), Op::AppendAll("/b".into(), b"tail".to_vec())],
             vec![Op::MkdirP("/a".into()), Op::Symlink("/a/dang".into(), "/a/nope".into()), w("/a/f", "line1\nline2\n")],
             vec![w("/a", "line1\nline2"), w("/b", "x\r\ny\r\n"), w("/ab", "\n")],
+            // a file whose bytes are not text: read_all fails, so no expectation - the empty one least of all - holds
+            vec![Op::WriteAll("/a".into(), vec![0xff, 0xfe, 0xfd]), w("/b", ""), Op::WriteAll("/ab".into(), b"ok\n\xff".to_vec())],
             // existing directories whose mode differs from what mkdir_m! asks for only above the rwx triplets
             vec![Op::MkdirM("/a".into(), 0o1750), Op::MkdirM("/b".into(), 0o750), Op::MkdirM("/ab/a".into(), 0o2750)],
         ];
